@@ -18,7 +18,7 @@ var shareable = map[string]bool{"gabi.Credential": true, "revocation.Witness": t
 var concurrentEntries = []string{
 	"gabi.(*Credential).CreateDisclosureProof", "gabi.(*Credential).CreateDisclosureProofBuilder", "gabi.(*Credential).NonrevPrepareCache",
 	kListVerify, kProofDVerify, kProofUVerify, "gabi.(ProofBuilderList).BuildProofList", "gabi.(ProofBuilderList).BuildDistributedProofList",
-	"common.FastRandomBigInt", "common.RandomQR", "common.RandomBigInt", kGenKey,
+	"common.FastRandomBigInt", "common.RandomQR", "common.RandomBigInt", "common.(*CPRNG).Read", kGenKey,
 	"keyproof.(*ValidKeyProofStructure).BuildProof", "keyproof.(*ValidKeyProofStructure).VerifyProof", "gabi.SignMessageBlock",
 }
 
@@ -52,6 +52,12 @@ func init() {
 			Run: func(P *Program, R *Report) { workerPoolRule(P, R) }},
 		Rule{ID: "C20.e", Explain: "goroutine protocol of GenerateConcurrent (C16.d).",
 			Run: func(P *Program, R *Report) { goroutineProtocolRule(P, R, "C20.e") }},
+		Rule{ID: "C20.g", Explain: "package-level big.Int constants (bigONE, bigZERO, two, ...) are only read: never the receiver of a mutating method, never returned to a caller, never stored into a structure - an escaped constant is modified by its new owner's next in-place operation and corrupts every later computation of the process.",
+			Run: func(P *Program, R *Report) { sharedConstantsRule(P, R, "C20.g") }},
+		Rule{ID: "C20.h", Explain: "lazily initialised fields: a field that is assigned inside a function run by sync.Once.Do is read only after the same Once.Do in the reading function (the accessor pattern); a direct read elsewhere races with the first initialisation.",
+			Run: func(P *Program, R *Report) { onceGuardedReadsRule(P, R) }},
+		Rule{ID: "C20.i", Explain: "shared scratch storage: in the concurrent call tree the address of (or a slice over) a field of a shareable object is not handed to a call that can write through it (encoders, ciphers, copy, PutUint64 ...) unless synchronised; per-call scratch buffers are locals.",
+			Run: func(P *Program, R *Report) { sharedScratchRule(P, R) }},
 		Rule{ID: "C20.f", Explain: "provers and verifiers never write the public key: no store or in-place mutation through *PublicKey (or its bases) in any function reachable from the proving/verifying entry points.",
 			Run: func(P *Program, R *Report) { publicKeyReadOnlyRule(P, R) }},
 	)
@@ -546,4 +552,152 @@ func sliceRoots(v ssa.Value) []ssa.Value {
 	}
 	walk(v)
 	return out
+}
+
+// onceGuardedReadsRule (C20.h).
+func onceGuardedReadsRule(P *Program, R *Report) {
+	rule := "C20.h"
+	type tf struct{ t, f string }
+	lazy := map[tf]*ssa.Function{}
+	for _, fn := range P.AllFuncs {
+		if fn.Blocks == nil {
+			continue
+		}
+		for _, c := range callsIn(fn) {
+			if calleeName(c) != "(*sync.Once).Do" {
+				continue
+			}
+			mc, ok := c.Common().Args[1].(*ssa.MakeClosure)
+			if !ok {
+				continue
+			}
+			cl := mc.Fn.(*ssa.Function)
+			allInstrs(cl, func(i ssa.Instruction) {
+				if st, ok := i.(*ssa.Store); ok {
+					if fa, ok := st.Addr.(*ssa.FieldAddr); ok {
+						lazy[tf{typeKey(fa.X.Type()), fieldName(fa.X.Type(), fa.Field)}] = cl
+					}
+				}
+			})
+		}
+	}
+	R.decide(rule, "lazy-fields:count", "fields initialised under sync.Once were found (>= 1: Credential.nonrevCache)", len(lazy) >= 1, fmt.Sprintf("%d", len(lazy)), "")
+	for _, fn := range P.AllFuncs {
+		if fn.Blocks == nil {
+			continue
+		}
+		for k, cl := range lazy {
+			if fn == cl {
+				continue
+			}
+			var loads []*ssa.UnOp
+			allInstrs(fn, func(i ssa.Instruction) {
+				if ld, ok := i.(*ssa.UnOp); ok && ld.Op == token.MUL {
+					if fa, ok := ld.X.(*ssa.FieldAddr); ok && typeKey(fa.X.Type()) == k.t && fieldName(fa.X.Type(), fa.Field) == k.f {
+						if _, fresh := rootOfAddr(fa.X).(*ssa.Alloc); !fresh {
+							loads = append(loads, ld)
+						}
+					}
+				}
+			})
+			if len(loads) == 0 {
+				continue
+			}
+			ok := true
+			var why []string
+			for _, ld := range loads {
+				q := &MustPass{P: P, NoInterproc: true, Instr: func(_ *ssa.Function, i ssa.Instruction) bool {
+					c, isC := i.(*ssa.Call)
+					return isC && calleeName(c) == "(*sync.Once).Do"
+				}}
+				if r := q.MustReach(fn, ld); !r.Holds {
+					ok = false
+					why = append(why, P.Pos(ld.Pos())+": "+r.Path)
+				}
+			}
+			R.decide(rule, FuncKey(fn)+":read("+k.t+"."+k.f+")", "a lazily initialised field is read only after its sync.Once.Do in the same function", ok, strings.Join(why, "\n"), P.Pos(loads[0].Pos()))
+		}
+	}
+}
+
+// sharedScratchRule (C20.i).
+func sharedScratchRule(P *Program, R *Report) {
+	rule := "C20.i"
+	var roots []*ssa.Function
+	for _, k := range concurrentEntries {
+		if f := P.Func(k); f != nil {
+			roots = append(roots, f)
+		}
+	}
+	fns := P.reachableFuncs(roots...)
+	nCalls := 0
+	bad := map[string]string{}
+	for _, fn := range fns {
+		for _, c := range callsIn(fn) {
+			call, isC := c.(*ssa.Call)
+			if !isC {
+				continue
+			}
+			name := calleeName(call)
+			if strings.HasPrefix(name, "sync/atomic.") || strings.HasPrefix(name, "(*sync.") || strings.HasPrefix(name, "(*sync/atomic.") {
+				continue
+			}
+			nCalls++
+			for k, a := range call.Call.Args {
+				var addr ssa.Value
+				switch a.(type) {
+				case *ssa.FieldAddr, *ssa.IndexAddr:
+					addr = a
+				default:
+					if _, isSl := a.Type().Underlying().(*types.Slice); isSl {
+						// a slice value: does it range over an array that lives inside a shareable object?
+						for _, r := range sliceRoots(a) {
+							switch r.(type) {
+							case *ssa.FieldAddr, *ssa.IndexAddr:
+								if _, isArr := r.Type().Underlying().(*types.Pointer).Elem().Underlying().(*types.Array); isArr {
+									addr = r
+								}
+							}
+						}
+					}
+				}
+				if addr == nil {
+					continue
+				}
+				t, shared := sharedRoot(addr)
+				if !shared {
+					continue
+				}
+				// method calls on a field that is itself a synchronisation or table object are reads of the module's own types
+				if k == 0 && call.Call.Value != nil {
+					if f := staticCallee(call); f != nil && f.Signature.Recv() != nil && inModuleFn(f) {
+						continue
+					}
+				}
+				if isBigIntPtr(a.Type()) || isBigIntValueAddr(a) {
+					continue // big.Int operands are covered by the in-place rules (C20.a)
+				}
+				if ok, _ := synchronised(P, fn, call); ok {
+					continue
+				}
+				bad[FuncKey(fn)+":escape("+t+"->"+name+")"] = fmt.Sprintf("%s: storage of the shared %s is passed to %s, which may write it while other goroutines use the object", P.Pos(call.Pos()), t, name)
+			}
+		}
+	}
+	R.decide(rule, "calls:count", "calls in the concurrent call tree were examined (>= 500)", nCalls >= 500, fmt.Sprintf("%d", nCalls), "")
+	for _, k := range sortedKeys(boolSet(bad)) {
+		R.bad(rule, k, "no storage of a shareable object escapes to a writer", bad[k], "")
+	}
+	if len(bad) == 0 {
+		R.ok(rule, "shared-scratch:none", fmt.Sprintf("no address of / slice over a field of a shareable object is passed to a call (%d calls examined)", nCalls))
+	}
+}
+
+func isBigIntValueAddr(v ssa.Value) bool {
+	p, ok := v.Type().Underlying().(*types.Pointer)
+	if !ok {
+		return false
+	}
+	n, ok := p.Elem().(*types.Named)
+	return ok && n.Obj().Name() == "Int" && n.Obj().Pkg() != nil && strings.HasSuffix(n.Obj().Pkg().Path(), "big")
 }
